@@ -21,10 +21,9 @@ def rand_table(rng, dens):
 
 
 def wf(meta, table, sets):
-    """the property's quantifier: 257 table entries, every set label + 256 slots, NUL-free strings, no set carries the table label"""
+    """the property's quantifier: 257 table entries, every set label + 256 slots, NUL-free strings (any label, also the table's)"""
     strs = [meta] + list(table) + [x for s in sets for x in s]
-    return (len(table) == 257 and all(len(s) == 257 for s in sets) and all(x is None or 0 not in x for x in strs)
-            and all(s[0] != R.ACNT for s in sets))
+    return len(table) == 257 and all(len(s) == 257 for s in sets) and all(x is None or 0 not in x for x in strs)
 
 
 def norm_set(s):
@@ -44,12 +43,10 @@ class C17(PropertyCheck):
             "slots and the last slot of the group; thorough: 2^16 patterns over 16 slots) for groups 0, 3 and 7, cross patterns over two "
             "groups, dense / sparse / entirely empty sets, labelled and unlabelled sets, the last slot of every group, empty-string "
             "names, meta absent / empty / present, tables empty / full / random / first or last entry alone, 0-5 (once 12) sets per file, values outside the quantifier "
-            "(empty set vectors, tables of other lengths, a set carrying the table label) for the correspondence only; short and long set "
+            "(empty set vectors, tables of other lengths) for the correspondence only; sets labelled AnimClipNameTable (finding F22, each case 12 times: the failure depended on the hash state); short and long set "
             "vectors with the normalised value as expected result; the game file FE14Aset_Test.bin.  "
             "Non-trivial = at least one present slot; distinct = distinct case line.")
     assumptions = ["A-codec: strings are given in Shift-JIS encoded form; encoding_rs decodes/encodes the generated alphabet losslessly",
-                   "the label AnimClipNameTable is reserved by the format: a set carrying it makes the table lookup depend on the hash "
-                   "state and is outside wf_aset",
                    "image (data + strings + labels + 35) below 2^32 (aset_fits)"]
 
     def generate(self, rng, tier):
@@ -89,6 +86,17 @@ class C17(PropertyCheck):
         add(None, none_table, [blank_set(), blank_set(b""), blank_set(b"x"), blank_set()], "empty-sets")
         add(b"meta", full, [set_with(rng, range(1, 257), b"dense")], "dense")
         add(b"meta", full, [set_with(rng, range(1, 257), None, names=lambda _: b""), set_with(rng, range(1, 257), b"d2")], "dense")
+        # finding F22 (repaired): sets labelled AnimClipNameTable - the reviewer's witness, one / several / all sets, next to empty and
+        # ordinary labels.  The failure was hash-state dependent (a fresh RandomState per HashMap): every case is run 12 times.
+        acnt_cases = [(b"m", [b"c0"] + [None] * 256, [set_with(rng, [1], R.ACNT, names=lambda _: b"a")]),
+                      (None, none_table, [blank_set(R.ACNT)]),
+                      (None, none_table, [blank_set(R.ACNT), blank_set(R.ACNT), blank_set(R.ACNT)]),
+                      (b"m", none_table, [set_with(rng, [256], b""), set_with(rng, [1, 33], R.ACNT), blank_set(), set_with(rng, [40], R.ACNT)]),
+                      (None, full, [set_with(rng, range(1, 257), R.ACNT), blank_set(b"x"), blank_set(R.ACNT)]),
+                      (b"", none_table, [blank_set(b""), blank_set(R.ACNT), blank_set(b"")])]
+        for (m_, t_, s_) in acnt_cases:
+            for _ in range(12):
+                add(m_, t_, s_, "table-label-on-sets")
         # table: first / last entry alone; many sets in one file (labels repeated, interleaved empty sets)
         add(None, [b"first"] + [None] * 256, [], "table-edges")
         add(None, [None] * 256 + [b"last"], [set_with(rng, [256])], "table-edges")
@@ -104,9 +112,7 @@ class C17(PropertyCheck):
             sets = []
             for _ in range(rng.choice([0, 1, 1, 2, 3, 5])):
                 dens = rng.choice([0.0, 0.01, 0.05, 0.3, 0.9, 1.0])
-                lab = rng.choice([None, b"", R.rand_string(rng, allow_empty=False), b"same"])
-                if lab == R.ACNT:
-                    lab = b"x"
+                lab = rng.choice([None, b"", R.rand_string(rng, allow_empty=False), b"same", R.ACNT])
                 s = blank_set(lab)
                 gmask = rng.getrandbits(8) if rng.random() < 0.5 else 255
                 for i in range(1, 257):
@@ -130,12 +136,12 @@ class C17(PropertyCheck):
         add(None, [], [set_with(rng, [1])], "outside")
         add(None, [b"a", None, b"b"], [], "outside")
         add(b"m", [None] * 300, [set_with(rng, [2])], "outside")
-        add(None, none_table, [blank_set(R.ACNT)], "outside")
         game = open(os.path.join(REPO, "resources", "test", "FE14Aset_Test.bin"), "rb").read()
         cases.append(Case("aset p " + R.B(game), "gamefile"))
         for _ in range(20 if tier == "quick" else 300):
             sets = [set_with(rng, [i for i in range(1, 257) if rng.random() < 0.05], rng.choice([None, b"lab"])) for _ in range(rng.randint(0, 3))]
-            img = R.encode_aset_image(rng.choice([None, b"meta"]), rand_table(rng, 0.5), sets)
+            extra = [(rng.choice([1040, 1044, 2000, 8]), R.ACNT)] if rng.random() < 0.3 else []
+            img = R.encode_aset_image(rng.choice([None, b"meta"]), rand_table(rng, 0.5), sets, extra_labels=extra)
             cases.append(Case("aset p " + R.B(img), "foreign-image"))
         # the runner splits the list into contiguous shards: mix cheap (sparse) and expensive (dense, game file) cases
         rng.shuffle(cases)
@@ -176,7 +182,7 @@ class C17(PropertyCheck):
         sets = [norm_set(s) for s in sets]
         if impl_out == "PANIC":
             return "implementation PANIC"
-        parts = dict(p.split("=", 1) for p in impl_out.split(" | "))
+        parts = dict(p.split("=", 1) for p in impl_out.replace("| amb ", "| ").split(" | "))
         ser = parts.get("ser")
         if ser is None or ser == "err":
             return "serialize failed"
@@ -213,9 +219,8 @@ class C17(PropertyCheck):
         return None
 
     def agree(self, case, impl_out, model_out, profile):
-        if impl_out.startswith("amb ") or "| amb " in impl_out or model_out.startswith("amb ") or "| amb " in model_out:
-            # table label on two addresses: the library's choice depends on the hash state; only the outcome class is compared
-            return (impl_out == "PANIC") == (model_out == "PANIC")
+        # the table label on several addresses ("amb" prefix of both lines): since fix 10408e9 the lookup is the lowest address,
+        # deterministic on both sides - compared verbatim like everything else
         return impl_out == model_out
 
     def shrink_candidates(self, case):
@@ -252,15 +257,18 @@ MANIFEST = dict(
          "bytes = what the writer allocates, the data region is 12 + 4*257 + the sum over sets, an all-absent group contributes no cell, an "
          "all-absent set costs 4 bytes, and that size is the data-size field of the file image (C17_space_set, C17_space_file, "
          "C17_space_file_bytes, C17_absent_group_omitted, C17_space_empty_set). Byte level "
-         "(C17_round_trip_final, no premise): for NUL-free strings (empty allowed), no set labelled AnimClipNameTable, image < 2^32, in "
-         "both arithmetic modes serialize succeeds, parse(bytes) returns the same value and re-serializing whatever is re-read gives the "
-         "same bytes; proved from the bin-archive round trip C01 via Proofs/RecsBinBridge.v (C17_round_trip states the same relative to "
+         "(C17_round_trip_final, no premise): for NUL-free strings (empty allowed), ANY labels - also sets labelled AnimClipNameTable: "
+         "the repaired lookup (finding F22, fix 10408e9) returns the lowest address carrying the label, which is the table at 12, for "
+         "every order of the label map (C17_table_lookup_order_independent, C17_table_lookup_built, Examples C17_regression_F22_*) - and "
+         "image < 2^32, in both arithmetic modes serialize succeeds and parse(bytes) returns the same value (hence, the model being "
+         "deterministic, re-serializing whatever is re-read gives the same bytes; that two runs of the real serializer agree is C02's, "
+         "observed here by the harness as ser2 = ser); proved from the bin-archive round trip C01 via Proofs/RecsBinBridge.v (C17_round_trip states the same relative to "
          "that round trip as an explicit premise). Model tied to /repo on every run: value -> serialize -> parse -> re-serialize compared "
          "line by line with the extracted model, plus an independent Python decoder of the image and the space formula as oracle.",
     note=TB + "Strings are Shift-JIS encoded byte lists (A-codec: encoding_rs lossless on the generated alphabet is assumed, exercised by "
-              "the harness). A set carrying the label AnimClipNameTable is outside the byte-level theorem (the table lookup then depends on "
-              "the hash order; the correspondence compares only the outcome class there). HashMap iteration order is modelled as an "
-              "arbitrary list order: the reader theorem holds for every order (obs_equal).",
+              "the harness). HashMap iteration order is modelled as an arbitrary list order: the reader theorem holds for every order (obs_equal; the "
+              "table lookup is order independent: Proofs/FindLabel.v). Finding F22 (a set labelled AnimClipNameTable was unreadable in "
+              "about half of the runs) is repaired in /repo; the generator runs such values 12 times each (fresh hash state per map).",
     technique="Coq proof (cell-list simulation of the writer, layout inversion by the reader, bit lemmas for the flag words; byte level from the "
               "bin-archive round trip C01) + extracted-model differential check + independent decoder/space-formula oracle",
     ref="DESIGN.md section 6 (C17)")
